@@ -4,6 +4,7 @@ sys.path.insert(0, os.path.dirname(__file__))
 
 import oracle as O
 import shapes as S
+import structural as ST
 
 MAXU64 = 2**64 - 1
 
@@ -104,6 +105,24 @@ def eval_view(view, envs, results):
                 if ps is not None and len(ps) == 0:
                     viol[('C01', det, 'paths', j)] = f"accepting dangerous execution (blocks {blocks}) but no path reported"
     return viol, stats
+
+
+def func_iso_violations(lines, view):
+    """for the whole-contract function (dispatch path [B0]): the copied main blocks have the edges of the contract's
+    main blocks, in the same order"""
+    viol = {}
+    blocks, subs, live = ST.parse_blocks(lines)
+    for key, fb in view.fblocks.items():
+        if key >= SUB_OFF_: continue
+        tb = blocks.get(fb['idx'])
+        if tb is None:
+            viol[('C04', 'func-block', f"B{fb['idx']}", 0)] = f"function block {fb['idx']} has no counterpart in the contract"; continue
+        nx = [view.fblocks[k]['idx'] if k in view.fblocks else k for k in fb['next']]
+        if nx != tb['next']:
+            viol[('C04', 'func-edges', f"B{fb['idx']}", 0)] = f"function copy of block {fb['idx']} has successors {nx}, the contract's block has {tb['next']}"
+    return viol
+
+SUB_OFF_ = 1048576
 
 
 def checks_field(det, c):
@@ -264,12 +283,40 @@ def process(item):
         drv = driver()
         mlines = model_prog(drv, toks, '.'.join(p[1:] for p in item.get('path', ("B0",))))
         cf, ck = item.get('ctx_fields'), item.get('ctx_kinds')
+        # blocks shared between the main code and a subroutine, or between two subroutines ("subroutine bodies entered only
+        # through callsub" is violated): only the contract-level graph is in any property's scope
+        seen, shared = {}, False
+        for l in ilines:
+            if l.startswith('sub '):
+                w = l.split(' ')
+                for x in dict(f.partition('=')[::2] for f in w[2:]).get('blocks', '').split(','):
+                    if x:
+                        if x in seen and seen[x] != w[1]: shared = True
+                        seen[x] = w[1]
+        res['shared_blocks'] = shared
+        if shared:
+            keep = lambda ls: [l for l in ls if corr.phase(l) in ('cfg', 'subs')]
+            ilines, mlines = keep(ilines), keep(mlines)
         d = corr.diff(project(ilines, cf, ck), project(mlines, cf, ck))
         res['diff'] = {k: [v[0][:5], v[1][:5], len(v[0]), len(v[1])] for k, v in d.items()}
         iv, mv = View(ilines), View(mlines)
         res['impl_err'] = iv.err; res['model_err'] = mv.err
         res['nblocks'] = len(iv.fblocks)
         res['paths_impl'] = {k: (len(v) if v is not None else -1) for k, v in iv.paths.items()}
+        # structural oracles (C04 / C05 / C12-iso) on both sides
+        def structural(lines, view):
+            v = {}
+            v.update(ST.cfg_violations(lines, toks))
+            v.update(ST.sub_violations(lines, toks))
+            if not shared:
+                v.update(func_iso_violations(lines, view))
+            return v
+        svi = structural(ilines, iv)
+        svm = structural(mlines, mv) if d else svi
+        if any(l.startswith('block ') and ' live=0 ' in l and not l.split(' next=')[1].startswith(' ') for l in ilines):
+            res['shapes'] = sorted(set(res['shapes']) | {'deadTwoSucc'})
+        res['viol_impl'] = [{'prop': p_, 'field': f_, 'where': w_, 'env': j_, 'detail': det_, 'in_other': (p_, f_, w_, j_) in svm}
+                            for (p_, f_, w_, j_), det_ in svi.items()]
         nenv = item.get('nenv', 0)
         if (nenv or item.get('envs')) and (iv.analysed or mv.analysed):
             rng = random.Random(f"env/{item.get('seed', 0)}/{name}")
@@ -304,7 +351,7 @@ def process(item):
                 for (p, f, w, j), det in v.items():
                     out.append({'prop': p, 'field': f, 'where': w, 'env': j, 'detail': det, 'in_other': (p, f, w, j) in other})
                 return out
-            res['viol_impl'] = pack(vi, vm)
+            res['viol_impl'] = res['viol_impl'] + pack(vi, vm)
             res['viol_model_only'] = sum(1 for k in vm if k not in vi)
             # keep the environments of violating runs for replay
             keep = sorted(set(x['env'] for x in res['viol_impl']))[:5]
